@@ -26,7 +26,7 @@ from elementpath.namespaces import XML_NAMESPACE, XML_BASE, XSI_NIL, \
 from elementpath.protocols import ElementProtocol, XsdElementProtocol, \
     XsdAttributeProtocol, XsdTypeProtocol, DocumentType, ElementType, \
     SchemaElemType, CommentType, ProcessingInstructionType
-from elementpath.helpers import match_wildcard, is_absolute_uri
+from elementpath.helpers import is_wildcard, match_wildcard, is_absolute_uri
 from elementpath.decoder import get_atomic_sequence
 from elementpath.etree import etree_iter_strings, is_etree_element_instance
 
@@ -393,7 +393,7 @@ class AttributeNode(XPathNode):
         return self.xsd_type is not None and self.xsd_type.is_list()
 
     def match_name(self, name: str, default_namespace: str | None = None) -> bool:
-        return self.name == name or '*' in name and match_wildcard(self.name, name)
+        return self.name == name or is_wildcard(name) and match_wildcard(self.name, name)
 
     @property
     def base_uri(self) -> str | None:
@@ -515,7 +515,7 @@ class SchemaAttributeNode(AttributeNode):
     def match_name(self, name: str, default_namespace: str | None = None) -> bool:
         if not self.name:
             return self.value.is_matching(name, default_namespace)
-        elif '*' in name:
+        elif is_wildcard(name):
             return match_wildcard(self.name, name)
         else:
             return self.name == name
@@ -961,7 +961,7 @@ class ElementNode(XPathNode):
     def match_name(self, name: str, default_namespace: str | None = None) -> bool:
         if self.name is None:
             return False
-        elif '*' in name:
+        elif is_wildcard(name):
             return match_wildcard(self.name, name)
         elif not name:
             return not self.name
@@ -1304,7 +1304,7 @@ class EtreeElementNode(ElementNode):
         return self.xsd_type is not None
 
     def match_name(self, name: str, default_namespace: str | None = None) -> bool:
-        if '*' in name:
+        if is_wildcard(name):
             return match_wildcard(self.name, name)
         elif not name:
             return not self.name
@@ -1477,7 +1477,7 @@ class SchemaElementNode(ElementNode):
         return True
 
     def match_name(self, name: str, default_namespace: str | None = None) -> bool:
-        if '*' in name:
+        if is_wildcard(name):
             return match_wildcard(self.name, name)
         elif not name:
             return not self.name
